@@ -12,7 +12,21 @@ type Query {
   echo(s: String, n: Int, f: Float, b: Boolean, k: Kind, l: [String!], o: In): String
   user: User
 }
+type Mutation { setEcho(s: String, n: Int): String }
+type Subscription { echoed(s: String, n: Int): String }
 '''
+
+# operations whose variables are named like the generated method's locals (query, variables, response, data)
+LOCAL_NAME_OPS = {
+    "query": ("LocQ", 'query LocQ($query: String = "q", $variables: Int, $data: String, $response: Int) { echo(s: $query, n: $variables) e2: echo(s: $data, n: $response) }'),
+    "query_caps": ("LocQC", "query LocQC($Query: String, $Data: Int) { echo(s: $Query, n: $Data) }"),
+    "mutation": ("LocM", "mutation LocM($query: String, $data: Int) { setEcho(s: $query, n: $data) }"),
+    "subscription": ("LocS", "subscription LocS($query: String, $data: Int) { echoed(s: $query, n: $data) }"),
+    "subscription_caps": ("LocSC", "subscription LocSC($Query: String, $Variables: Int) { echoed(s: $Query, n: $Variables) }"),
+    "subscription_plain": ("PlainS", 'subscription PlainS($s: String = "it") { echoed(s: $s) }'),
+}
+LOCAL_NAME_KWARGS = {"LocQ": {"query": "cq", "variables": 1, "data": "cd", "response": 2}, "LocQC": {"query": "cq", "data": 3}, "LocM": {"query": "cq", "data": 4},
+                     "LocS": {"query": "python", "data": 5}, "LocSC": {"query": "python", "variables": 6}, "PlainS": {"s": "x"}}
 
 # name -> GraphQL source text of a string literal
 LITERALS = {
